@@ -97,6 +97,11 @@ class Runner:
         self._roll = eqx.filter_jit(self._rollout)
         self._vstep = eqx.filter_jit(lambda env, st, a, ks: eqx.filter_vmap(lambda s, x, k: env.step(s, x, key=k))(st, a, ks))
         self.dt = float(np.asarray(getattr(self.env.unwrapped, "dt", 0.0)))
+        # MuJoCo / G1: `step` and the functional components are two separately fused instances of mjx.step; its iterative
+        # contact solver can amplify a 1-ulp difference within a single control step.  Compare with a physical tolerance and
+        # judge the fraction of mismatching steps (a wrong wiring mismatches on almost every step, a solver blip on one).
+        self.physics = not ENVS[cls["env"]][0].endswith("classic_control")
+        self.tol = 1e-3 if self.physics else 1e-5
 
     # ------------------------------------------------------------------ adversary
 
@@ -167,9 +172,9 @@ class Runner:
                 # Discrete.contains is not traceable (Python `if` on an array): membership computed directly
                 "act_in": ((a >= 0) & (a < env.action_space.n)) if isinstance(env.action_space, Discrete) else env.action_space.contains(a),
                 "reward": reward, "term": term, "trunc": trunc,
-                "r_eq": jnp.abs(reward - r_c) <= 1e-5 * jnp.maximum(1.0, jnp.abs(r_c)),
+                "r_eq": jnp.abs(reward - r_c) <= self.tol * jnp.maximum(1.0, jnp.abs(r_c)),
                 "flags_eq": (term == t_c) & (trunc == tr_c),
-                "obs_eq": jnp.where(done, True, jnp.all(jnp.abs(obs_flat - o_c_flat) <= 1e-5 * jnp.maximum(1.0, jnp.abs(o_c_flat)))),
+                "obs_eq": jnp.where(done, True, jnp.all(jnp.abs(obs_flat - o_c_flat) <= self.tol * jnp.maximum(1.0, jnp.abs(o_c_flat)))),
                 "fresh": jnp.where(done, new_state.unwrapped.t == 0, new_state.unwrapped.t > state.unwrapped.t),
                 "obs_absmax": jnp.max(jnp.abs(jnp.where(jnp.isfinite(obs_flat), obs_flat, 0.0))),
                 "at_corner": jnp.any(a == env.action_space.low) | jnp.any(a == env.action_space.high) if isinstance(env.action_space, Box) else jnp.array(False),
@@ -248,6 +253,13 @@ class Runner:
                 else:
                     res.ok("C02", "action_sample_in_space", L)
             if "C01" in props:
+                if self.physics:
+                    # tolerate isolated numerical blips of the contact solver (see __init__): at most 5 % of the steps
+                    for k in ("r_eq", "obs_eq"):
+                        bad = int(np.sum(~np.asarray(outs[k])))
+                        if 0 < bad <= max(1, L // 20):
+                            res.probes[f"physics_blip_{k}"] += bad
+                            outs[k] = np.ones_like(outs[k])
                 if not np.all(outs["r_eq"]) or not np.all(outs["flags_eq"]):
                     res.fail("C01", "step_reward" if not np.all(outs["r_eq"]) else "step_flags", "builtin_step_differs_from_functional_components", env=name,
                              step=int(np.argmin(outs["r_eq"] & outs["flags_eq"])))
@@ -263,37 +275,53 @@ class Runner:
         return res
 
     def _mode_check(self, res, env, state, op):
-        """The same step executed jitted, vmapped (batch of 2) and — classic control only — eagerly."""
-        key = jr.key(op["key"] ^ 0x777)
-        a = env.action_space.sample(key=key)
-        ref = jax.device_get(env.step(state, a, key=key))
-        st_b = jax.tree.map(lambda x: jnp.stack([x, x]), state)
-        outs_b = jax.device_get(self._vstep(env, st_b, jnp.stack([a, a]), jnp.stack([key, key])))
-        modes = [("vmap", jax.tree.map(lambda x: x[1], outs_b))]
-        res.faults["F.exec_mode_vmap"] += 1
-        if self.cls.get("eager", False):
-            with jax.disable_jit():
-                modes.append(("eager", jax.device_get(env.step(state, a, key=key))))
-            res.faults["F.exec_mode_eager"] += 1
-        for mode, got in modes:
-            la, lb = jax.tree.leaves(got), jax.tree.leaves(ref)
-            bad = None
-            if len(la) != len(lb):
-                bad = "structure"
-            else:
-                for x, y in zip(la, lb):
-                    x, y = np.asarray(x), np.asarray(y)
-                    if x.shape != y.shape or x.dtype != y.dtype:
-                        bad = "shape_or_dtype"
-                        break
-                    if x.dtype.kind == "f":
-                        if not np.allclose(x, y, rtol=1e-4, atol=1e-5, equal_nan=True):
+        """The same step executed jitted, vmapped (batch of 2) and — classic control only — eagerly.  Three different
+        actions are tried; a mode is reported only if it disagrees on at least two of them (MuJoCo's contact solver can
+        amplify a 1-ulp difference between two compiled instances on an isolated step)."""
+        rtol, atol = (1e-3, 1e-3) if self.physics else (1e-4, 1e-5)
+        bad_count: dict = {}
+        tried = 0
+        for j in range(3):
+            key = jr.key((op["key"] ^ 0x777) + j)
+            a = env.action_space.sample(key=key)
+            ref = jax.device_get(env.step(state, a, key=key))
+            st_b = jax.tree.map(lambda x: jnp.stack([x, x]), state)
+            outs_b = jax.device_get(self._vstep(env, st_b, jnp.stack([a, a]), jnp.stack([key, key])))
+            modes = [("vmap", jax.tree.map(lambda x: x[1], outs_b))]
+            res.faults["F.exec_mode_vmap"] += 1
+            if self.cls.get("eager", False) and j == 0:
+                with jax.disable_jit():
+                    modes.append(("eager", jax.device_get(env.step(state, a, key=key))))
+                res.faults["F.exec_mode_eager"] += 1
+            tried += 1
+            for mode, got in modes:
+                la, lb = jax.tree.leaves(got), jax.tree.leaves(ref)
+                bad = None
+                if len(la) != len(lb):
+                    bad = "structure"
+                else:
+                    for x, y in zip(la, lb):
+                        x, y = np.asarray(x), np.asarray(y)
+                        if x.shape != y.shape or x.dtype != y.dtype:
+                            bad = "shape_or_dtype"
+                            break
+                        if x.dtype.kind == "f":
+                            if not np.allclose(x, y, rtol=rtol, atol=atol, equal_nan=True):
+                                bad = "value"
+                                break
+                        elif not np.array_equal(x, y):
                             bad = "value"
                             break
-                    elif not np.array_equal(x, y):
-                        bad = "value"
-                        break
-            if bad:
-                res.fail("C12", "mode_equal", f"builtin_{mode}_{bad}_differs", env=self.cls["env"])
+                if bad:
+                    bad_count.setdefault((mode, bad), 0)
+                    bad_count[(mode, bad)] += 1
+        reported = False
+        for (mode, bad), cnt in sorted(bad_count.items()):
+            # structural differences and eager differences (tried once) are reported at once; value differences need two of three
+            if bad != "value" or mode == "eager" and not self.physics or cnt >= 2:
+                res.fail("C12", "mode_equal", f"builtin_{mode}_{bad}_differs", env=self.cls["env"], disagreeing_actions=cnt, of=tried)
+                reported = True
             else:
-                res.ok("C12", "mode_equal")
+                res.probes["mode_value_blip"] += 1
+        if not reported:
+            res.ok("C12", "mode_equal", tried)
